@@ -381,6 +381,14 @@ pub fn c04(g: &mut G) {
         let kv = values(&keys, (s + 1) % VALUE_PATTERNS, &mut g.rng);
         g.emit(format!("# ab set {}", mask));
         g.emit(build_line("raw", 0, GEOMS[s % GEOMS.len()], "seq", &ins_calls(&kv)));
+        // user automata that implement only start / is_match / accept (trait defaults for the hints)
+        for t in dfas.iter().step_by(if g.thorough { 2 } else { 6 }) {
+            let d = t.spec().replacen("dfa:", "dfd:", 1);
+            g.emit(format!("streamst {} - -", d));
+            let l = g.rng.pick(&lo).clone();
+            let h = g.rng.pick(&hi).clone();
+            g.emit(format!("stream {} {} {}", d, l, h));
+        }
         for t in &dfas {
             g.emit(format!("streamst {} - -", t.spec()));
             for _ in 0..per {
